@@ -109,6 +109,13 @@ CLAIMED["C07"] = dict(
     ref="DESIGN.md 4/C07",
 )
 
+CLAIMED["C20"] = dict(
+    technique="dominance (must-flow) of OutOfRangeError guards over the first emitted bit; clone comparison (string-insensitive AST equality) of the bounded-block bookkeeping duplicated in reader and writer; loop-shape recognition of bit order; syntax-directed count of emitted bits against the closed-form length functions",
+    text="Value-level inverse-ness of exp-Golomb coding is arithmetic and not decided. Decided: no bit can be emitted before a value is range-checked; the bounded-block bookkeeping is the same program on both sides with the required past-the-end arms (read 1 / accept only 1); fixed-width integers are MSB-first on both sides; signed codes emit/read the sign under the same condition; the length functions equal the number of write_bit calls of the writer's loops.",
+    note="Trusted: int.bit_length. Several shape rules are bound to the current idioms of bitstream/io.py; the validator's reader is spec-pinned and not compared value-for-value.",
+    ref="DESIGN.md 4/C20",
+)
+
 NOT_APPLICABLE = {
     "C12": "arithmetic over unbounded integers (quantisation error bounds, monotonicity of a rational formula): no structural clause; needs algebra/solver or execution",
     "C13": "partition/telescoping identities of floor arithmetic on runtime sizes; the functions are spec-pinned arithmetic with nothing to decide from code shape",
